@@ -697,7 +697,15 @@ pub fn execute(case: &str) -> String {
     }
     let a = drive_v1(&c, &encoded, &all1, &extras);
     let b = drive_v1alpha(&c, &encoded, &all1a, &extras);
-    format!("v1 {} v1a {}", a, b)
+    // leading class token: only for the evidence statistics (the model prints it too)
+    let class = if a.starts_with("ok") {
+        "built"
+    } else if a.starts_with("build-err decode") {
+        "rejected-undecodable"
+    } else {
+        "rejected-unnamed"
+    };
+    format!("{} v1 {} v1a {}", class, a, b)
 }
 
 // ---------------------------------------------------------------- generation
